@@ -72,7 +72,7 @@ func loadProgram(dir string, overlay map[string][]byte) (*Program, error) {
 			return nil, fmt.Errorf("anchor package %s missing from load", a)
 		}
 	}
-	prog, spkgs := ssautil.Packages(pkgs, ssa.BuilderMode(0))
+	prog, spkgs := ssautil.Packages(pkgs, ssa.InstantiateGenerics)
 	for i, sp := range spkgs {
 		if sp == nil {
 			return nil, fmt.Errorf("no SSA package for %s", pkgs[i].PkgPath)
